@@ -136,6 +136,30 @@ fn run_script(script: &Value) -> Value {
             }
         }
         let after_mut = listing(&all, &cs, !lend);
+        // C19: ChangeSet::clear with a destructor that panics on its k-th call
+        let fclear = script["fclear"].as_u64().unwrap_or(0) as u32;
+        let mut fired = false;
+        let mut exposed: Vec<u32> = vec![];
+        if fclear > 0 {
+            let before = ledger::panicked().len();
+            ledger::arm_panic(fclear);
+            let r = catch(|| cs.clear());
+            ledger::disarm();
+            fired = ledger::panicked().len() > before;
+            if r.is_err() && !fired {
+                panic!("ChangeSet::clear panicked on its own");
+            }
+            // whatever is still listed must not have been destroyed
+            for (_i, t) in (&all, &cs).join() {
+                if ledger::state_of(t.cid) != Some(ledger::St::Held) {
+                    exposed.push(t.cid);
+                }
+            }
+            // the change set must remain usable
+            let (id0, _) = pairs[0];
+            cs.add(ents.entity(id0), Trail::new(900_000, 77));
+        }
+        let post_clear = if fclear > 0 { listing(&all, &cs, false) } else { vec![] };
         let mut value = vec![];
         {
             let bs = all.clone();
@@ -163,18 +187,20 @@ fn run_script(script: &Value) -> Value {
                 }
             }
         }
-        (reff, with_store, after_mut, value)
+        (reff, with_store, after_mut, value, fclear, fired, exposed, post_clear)
     });
     let pj: Vec<Value> = pairs.iter().map(|(i, a)| json!([i, a])).collect();
     match r {
-        Ok((reff, with_store, after_mut, value)) => {
+        Ok((reff, with_store, after_mut, value, fclear, fired, exposed, post_clear)) => {
             drop(world);
             json!({"op":"CS","tid":script["tid"],"pairs":pj,"how":script["how"],"ref":reff,"with_store":with_store,
                    "store":store_js,"after_mut":after_mut,"value":value,"take":take,"tag":tag,
+                   "fclear":fclear,"fired":fired,"exposed":exposed,"post_clear":post_clear,
                    "ledger":ledger::dump(),"panic":""})
         }
         Err(msg) => json!({"op":"CS","tid":script["tid"],"pairs":pj,"ref":[],"with_store":[],"store":store_js,
-                           "after_mut":[],"value":[],"take":take,"tag":tag,"ledger":ledger::dump(),"panic":msg}),
+                           "after_mut":[],"value":[],"take":take,"tag":tag,"fclear":0,"fired":false,"exposed":[],"post_clear":[],
+                           "ledger":ledger::dump(),"panic":msg}),
     }
 }
 
